@@ -119,6 +119,68 @@ Proof.
   - cbn [remove_unused_opsets o_fimports]. destruct pf; [|reflexivity]. rewrite map_length, combine_length, seq_length. lia.
 Qed.
 
+(* ---------------------------------------------------------------- InlinePass and the opset tables.
+   _instantiate_call merges the imports of the inlined function into the MODEL's table: a domain the model does not
+   import yet is appended with the function's version; a domain imported with another version raises.  So the nodes
+   already in the main graph and the copied body nodes both keep resolving to the version they had. *)
+Definition merge_imports (imp fimp : imports) : imports :=
+  fold_left (fun acc dv => match slookup acc (fst dv) with Some _ => acc | None => acc ++ [dv] end) fimp imp.
+Definition compatible (imp fimp : imports) : Prop :=
+  forall d v v', slookup imp d = Some v -> slookup fimp d = Some v' -> v = v'.
+
+Lemma slookup_app' {A} (a b : list (str * A)) k :
+  slookup (a ++ b) k = match slookup a k with Some x => Some x | None => slookup b k end.
+Proof. induction a as [|[k' x] a IH]; simpl; [reflexivity|]. destruct (str_eqb k' k); [reflexivity | exact IH]. Qed.
+
+Theorem merge_keeps fimp : forall imp d v, slookup imp d = Some v -> slookup (merge_imports imp fimp) d = Some v.
+Proof.
+  unfold merge_imports. induction fimp as [|dv fimp IH]; intros imp d v H; simpl; [exact H|].
+  apply IH. destruct (slookup imp (fst dv)); [exact H|]. rewrite slookup_app', H. reflexivity.
+Qed.
+
+Lemma merge_adds_aux fimp : forall imp d v, (slookup imp d = None \/ slookup imp d = Some v) -> slookup fimp d = Some v ->
+  slookup (merge_imports imp fimp) d = Some v.
+Proof.
+  induction fimp as [|[k w] fimp IH]; intros imp d v Hi Hf; [discriminate|].
+  cbn [slookup] in Hf. change (merge_imports imp ((k, w) :: fimp))
+    with (merge_imports (match slookup imp k with Some _ => imp | None => imp ++ [(k, w)] end) fimp).
+  destruct (str_eqb k d) eqn:E.
+  - apply str_eqb_eq in E. subst k. inversion Hf; subst w. apply merge_keeps.
+    destruct Hi as [Hi|Hi]; rewrite Hi; [|exact Hi]. rewrite slookup_app', Hi. cbn [slookup]. rewrite str_eqb_refl'. reflexivity.
+  - apply IH; [|exact Hf].
+    destruct (slookup imp k); [exact Hi|]. rewrite slookup_app'. cbn [slookup]. rewrite E.
+    destruct Hi as [Hi|Hi]; rewrite Hi; auto.
+Qed.
+
+Theorem merge_adds imp fimp d v : compatible imp fimp -> slookup fimp d = Some v -> slookup (merge_imports imp fimp) d = Some v.
+Proof.
+  intros Hc Hf. apply merge_adds_aux; [|exact Hf].
+  destruct (slookup imp d) as [v0|] eqn:E; [right | left; reflexivity]. f_equal. eapply Hc; eauto.
+Qed.
+
+(* what the correspondence checks on every InlinePass step (b = before, a = after): the old table is a prefix of the new
+   one, every added entry is an import of some function of b (same version), and every node of the main graph of a
+   (recursively) has an import for its domain *)
+Fixpoint imports_prefixb (x y : imports) : bool :=
+  match x, y with
+  | [], _ => true
+  | p :: x', q :: y' => str_eqb (fst p) (fst q) && Z.eqb (snd p) (snd q) && imports_prefixb x' y'
+  | _ :: _, [] => false
+  end.
+Definition coveredb (fuel : nat) (m : model) (r : gref) (imp : imports) : bool :=
+  forallb (fun op => match slookup imp (op_domain op) with Some _ => true | None => false end) (rec_ops fuel m r).
+Definition inline_opsets_okb (fuel : nat) (b a : omodel) : bool :=
+  imports_prefixb (o_imports b) (o_imports a)
+  && forallb (fun dv => existsb (fun fi => match slookup fi (fst dv) with Some v => Z.eqb v (snd dv) | None => false end) (o_fimports b))
+             (skipn (length (o_imports b)) (o_imports a))
+  && coveredb fuel (o_model a) GMain (o_imports a).
+
+Lemma coveredb_sound fuel m r imp op : coveredb fuel m r imp = true -> In op (rec_ops fuel m r) -> exists v, slookup imp (op_domain op) = Some v.
+Proof.
+  unfold coveredb. intros H Hin. rewrite forallb_forall in H. specialize (H op Hin).
+  destruct (slookup imp (op_domain op)) as [v|]; [exists v; reflexivity | discriminate].
+Qed.
+
 (* non-vacuity: a model-level import that no node / function uses is dropped, a used one is kept with its version *)
 Module OpsetsExample.
   Definition dA : str := [97]. Definition dB : str := [98].
@@ -126,6 +188,14 @@ Module OpsetsExample.
   Definition m : model := mkModel (mkGraph [1] [] [n1] [2]) [] [].
   Definition om : omodel := mkO m [([], 18%Z); (dA, 3%Z); (dB, 1%Z)] [].
   Example ex_prune : o_imports (remove_unused_opsets 8 true om) = [([], 18%Z); (dA, 3%Z)].
+  Proof. vm_compute. reflexivity. Qed.
+  Example ex_merge : merge_imports [([], 18%Z)] [([], 18%Z); (dA, 3%Z)] = [([], 18%Z); (dA, 3%Z)].
+  Proof. vm_compute. reflexivity. Qed.
+  Example ex_inline_ok : inline_opsets_okb 8 (mkO (mkModel (mkGraph [1] [] [] [1]) [] []) [([], 18%Z)] [[([], 18%Z); (dA, 3%Z)]])
+                                             (mkO m [([], 18%Z); (dA, 3%Z)] []) = true.
+  Proof. vm_compute. reflexivity. Qed.
+  Example ex_inline_missing : inline_opsets_okb 8 (mkO (mkModel (mkGraph [1] [] [] [1]) [] []) [([], 18%Z)] [[([], 18%Z); (dA, 3%Z)]])
+                                                  (mkO m [([], 18%Z)] []) = false.
   Proof. vm_compute. reflexivity. Qed.
   Example ex_resolve : resolve_version (remove_unused_opsets 8 true om) GMain (n_op n1) = Some 3%Z.
   Proof. vm_compute. reflexivity. Qed.
